@@ -108,7 +108,9 @@ def model_from_capture(c):
         pass
     M = M()
     flags = {f: bool(consts["ADD_" + f]) for f in FOODS}
-    M.cfg = dict(N=N, opt=c.type, store=bool(consts["STORE_FOOD_BETWEEN_YEARS"]), retail=float(consts["STORED_FOOD_WASTE_RETAIL"]), pop=float(consts["POP"]),
+    from .model import WASTE_KEYS
+    M.cfg = dict(N=N, opt=c.type, store=bool(consts["STORE_FOOD_BETWEEN_YEARS"]), retail=float(consts["STORED_FOOD_WASTE_RETAIL"]), retail_by={pre: float(consts[key]) for pre, key in WASTE_KEYS.items()},
+                 pop=float(consts["POP"]),
                  kcals_daily=float(consts["KCALS_MONTHLY"]) / 30.0, seaweed_kcals=float(consts["SEAWEED_KCALS"]), flags=flags, rotation=bool(consts["inputs"]["OG_USE_BETTER_ROTATION"]))
     M.consts = consts
     M.growth = [float(x) for x in tc["growth_rates_monthly"]]
